@@ -1,6 +1,170 @@
-//! syn oracle of one macro input (filled in with the parser correspondence).
-use proc_macro2::TokenStream;
+//! syn oracle of one macro input: everything the parser asks syn about this input, computed by syn itself.
+//!
+//! The parser model (lean/JoinModel/Parse.lean) takes these answers as its `Oracle` argument.  Entries, joined by " ;; ":
+//!   E i k B|N [:: reprint]      the first k collected tokens of a unit starting at top-level position i parse as Expr
+//!                               (B: it is `Expr::Block`); reprint = tokens of the parsed value when they differ
+//!   T i k [:: reprint]          same list parses as Type
+//!   L i k :: O                  same list is `Expr::Let` with a non-identifier pattern
+//!   L i k :: I :: pat :: ident :: rhs :: B|N
+//!   P i n|- [:: reprint]        `input.parse::<Expr>()` on the suffix starting at i consumes n trees (handler body)
+//!   OP g n|-                    `content.parse::<Path>()` on the content of the group at top-level position g
+//!   OB g t|f|-                  `content.parse::<LitBool>()` on the same
+//! "collected tokens of a unit": `parse_until` drops a `~` whenever one is next at the start of a loop iteration,
+//! so the list collected from position i is a function of the tokens alone (`collect_from`).
+use crate::canon::canon;
+use proc_macro2::{TokenStream, TokenTree};
+use quote::ToTokens;
+use std::collections::HashMap;
+use syn::parse::Parser;
+use syn::{Expr, Pat, Type};
 
-pub fn oracle(_ts: TokenStream) -> String {
-    "-".to_string()
+fn is_tilde(t: &TokenTree) -> bool {
+    matches!(t, TokenTree::Punct(p) if p.as_char() == '~')
+}
+
+/// tokens a unit starting at `i` collects if it never stops
+pub fn collect_from(toks: &[TokenTree], i: usize) -> Vec<TokenTree> {
+    let mut out = Vec::new();
+    let mut pos = i;
+    while pos < toks.len() {
+        if is_tilde(&toks[pos]) {
+            pos += 1;
+            if pos >= toks.len() {
+                break;
+            }
+        }
+        out.push(toks[pos].clone());
+        pos += 1;
+    }
+    out
+}
+
+fn stream(ts: &[TokenTree]) -> TokenStream {
+    ts.iter().cloned().collect()
+}
+
+fn unspaced(s: &str) -> String {
+    s.split(' ')
+        .map(|w| if w.starts_with("p:") && w.ends_with('j') && w.len() == 4 { &w[..3] } else { w })
+        .collect::<Vec<_>>()
+        .join(" ")
+}
+
+pub fn oracle(ts: TokenStream) -> String {
+    let toks: Vec<TokenTree> = ts.into_iter().collect();
+    let n = toks.len();
+    let mut out: Vec<String> = Vec::new();
+    // answers are functions of the token list, so each distinct list is asked once
+    let mut seen: HashMap<String, ()> = HashMap::new();
+    for i in 0..n {
+        let all = collect_from(&toks, i);
+        for k in 1..=all.len() {
+            let list = &all[..k];
+            let key = canon(stream(list));
+            if seen.insert(key.clone(), ()).is_some() {
+                continue;
+            }
+            if let Ok(e) = syn::parse2::<Expr>(stream(list)) {
+                let re = canon(e.to_token_stream());
+                let mut s = format!("E {} {} {}", i, k, if matches!(e, Expr::Block(_)) { "B" } else { "N" });
+                if unspaced(&re) != unspaced(&key) {
+                    s.push_str(&format!(" :: {}", re));
+                }
+                out.push(s);
+                if let Expr::Let(l) = &e {
+                    match &l.pat {
+                        Pat::Ident(p) => out.push(format!(
+                            "L {} {} :: I :: {} :: {} :: {} :: {}",
+                            i,
+                            k,
+                            canon(p.to_token_stream()),
+                            p.ident,
+                            canon(l.expr.to_token_stream()),
+                            if matches!(*l.expr, Expr::Block(_)) { "B" } else { "N" }
+                        )),
+                        _ => out.push(format!("L {} {} :: O", i, k)),
+                    }
+                }
+            }
+            if let Ok(t) = syn::parse2::<Type>(stream(list)) {
+                let re = canon(t.to_token_stream());
+                let mut s = format!("T {} {}", i, k);
+                if unspaced(&re) != unspaced(&key) {
+                    s.push_str(&format!(" :: {}", re));
+                }
+                out.push(s);
+            }
+        }
+    }
+    // handler bodies
+    for q in 0..n {
+        let is_kw = matches!(&toks[q], TokenTree::Ident(id) if ["map", "then", "and_then"].contains(&id.to_string().as_str()));
+        if !is_kw || q + 2 >= n + 0 {
+            continue;
+        }
+        let eq = matches!(&toks[q + 1], TokenTree::Punct(p) if p.as_char() == '=');
+        let gt = q + 2 < n && matches!(&toks[q + 2], TokenTree::Punct(p) if p.as_char() == '>');
+        if !(eq && gt) {
+            continue;
+        }
+        let i = q + 3;
+        let suffix = &toks[i.min(n)..];
+        let total = suffix.len();
+        let parser = |input: syn::parse::ParseStream<'_>| -> syn::Result<(Expr, usize)> {
+            let e: Expr = input.parse()?;
+            let rest: TokenStream = input.parse()?;
+            Ok((e, rest.into_iter().count()))
+        };
+        match parser.parse2(stream(suffix)) {
+            Ok((e, rest)) => {
+                let used = total - rest;
+                let re = canon(e.to_token_stream());
+                let src = canon(stream(&suffix[..used]));
+                let mut s = format!("P {} {}", i, used);
+                if unspaced(&re) != unspaced(&src) {
+                    s.push_str(&format!(" :: {}", re));
+                }
+                out.push(s);
+            }
+            Err(_) => out.push(format!("P {} -", i)),
+        }
+    }
+    // option arguments
+    for g in 1..n {
+        let kw = match &toks[g - 1] {
+            TokenTree::Ident(id) => id.to_string(),
+            _ => continue,
+        };
+        let content = match &toks[g] {
+            TokenTree::Group(gr) if gr.delimiter() == proc_macro2::Delimiter::Parenthesis => gr.stream(),
+            _ => continue,
+        };
+        let total = content.clone().into_iter().count();
+        if kw == "futures_crate_path" {
+            let parser = |input: syn::parse::ParseStream<'_>| -> syn::Result<usize> {
+                let _p: syn::Path = input.parse()?;
+                let rest: TokenStream = input.parse()?;
+                Ok(rest.into_iter().count())
+            };
+            match parser.parse2(content) {
+                Ok(rest) => out.push(format!("OP {} {}", g, total - rest)),
+                Err(_) => out.push(format!("OP {} -", g)),
+            }
+        } else if kw == "transpose_results" || kw == "lazy_branches" {
+            let parser = |input: syn::parse::ParseStream<'_>| -> syn::Result<bool> {
+                let b: syn::LitBool = input.parse()?;
+                let _rest: TokenStream = input.parse()?;
+                Ok(b.value)
+            };
+            match parser.parse2(content) {
+                Ok(b) => out.push(format!("OB {} {}", g, if b { "t" } else { "f" })),
+                Err(_) => out.push(format!("OB {} -", g)),
+            }
+        }
+    }
+    if out.is_empty() {
+        "-".to_string()
+    } else {
+        out.join(" ;; ")
+    }
 }
